@@ -334,20 +334,35 @@ pub fn check_schedule(
         // thousands of loop back-edges without reading a shared cell or performing an effect —
         // nobody can end such a loop — while the source semantics, after the very same events,
         // come to an end
-        (Stop::Halted(why), Stop::MainReturned | Stop::Failed(_))
-            if STRICT_LIVENESS.with(|c| c.get()) && why == "step budget exhausted" && (out.live_at_stop == 1 || out.max_blind_spins >= 2_000) =>
-        {
-            checked.verdict = Verdict::Violates(Mismatch {
-                class: "compiled-spins-forever".into(),
-                detail: format!(
-                    "after {} common events the compiled program keeps running without any further effect (step budget exhausted; a loop that nobody else can end), the source semantics end with {:?}",
-                    out.events.len(),
-                    rout.stop
-                ),
-                at: out.events.len(),
-            })
+        // bounded liveness, for generated programs (their loops are tiny and every one reads a
+        // shared cell): the compiled program has used up its step budget while one goroutine took
+        // thousands of loop back-edges in a row without reading a shared cell or performing an
+        // effect — nobody can end such a loop — and the source semantics, run freely under the
+        // same strategy and budget, come to an end without ever doing that
+        (Stop::Halted(why), _) if STRICT_LIVENESS.with(|c| c.get()) && why == "step budget exhausted" && out.max_blind_spins >= 2_000 => {
+            let free = gort::run_ref(rp, crate::gort::co::Seeded::new(strategy, seed, vec![]), max_steps).0;
+            if matches!(free.stop, Stop::MainReturned | Stop::Failed(_)) || free.max_blind_spins < 100 {
+                checked.verdict = Verdict::Violates(Mismatch {
+                    class: "compiled-spins-forever".into(),
+                    detail: format!(
+                        "after {} common events a goroutine of the compiled program loops without reading a shared cell or performing an effect ({} back-edges in a row, step budget exhausted); under the source semantics no loop does that (free run: {:?}, at most {} such back-edges)",
+                        out.events.len(),
+                        out.max_blind_spins,
+                        free.stop,
+                        free.max_blind_spins
+                    ),
+                    at: out.events.len(),
+                });
+            } else {
+                checked.verdict = Verdict::PrefixRefines;
+            }
         }
-        (Stop::Halted(_), _) => checked.verdict = Verdict::PrefixRefines,
+        (Stop::Halted(_), _) => {
+            if std::env::var("VERIF_DEBUG").is_ok() {
+                eprintln!("halted: compiled {:?} live={} blind={} reference {:?}", out.stop, out.live_at_stop, out.max_blind_spins, rout.stop);
+            }
+            checked.verdict = Verdict::PrefixRefines
+        }
         (a, b) => {
             checked.verdict = Verdict::Violates(Mismatch {
                 class: "termination-mismatch".into(),
